@@ -1,17 +1,36 @@
 """C10 - coefficient fields: contract sidecar (what is extracted, with which bindings, and the CBMC contracts).
 
 Top-level postconditions are written from the property statement ("converting any machine integer, negative ones
-included, yields its residue; every ... operation on reduced operands equals the exact result reduced; x times its
-inverse is 1; a characteristic that is not a prime greater than 1 is refused").  Helper preconditions come from
-the call sites.  Every header's own copy of a duplicated body is extracted and checked separately.
+included, yields its residue; every ... operation on reduced operands equals the exact result reduced; comparisons
+are by residue; x times its inverse is 1; a characteristic that is not a prime greater than 1 is refused").  Helper
+preconditions come from the call sites.  Every header's own copy of a duplicated body is extracted and checked
+separately: a change to one copy must be caught in that copy.
 """
-from vp.extract import Fn
-from vp.driver import Unit, Run
+import os
+import subprocess
 
+from vp.extract import Fn
+from vp.driver import Unit, Run, VERIF, sh
+
+LEVEL = "proof"
 F = "src/Persistence_matrix/include/gudhi/Fields/"
 PC = "src/Persistent_cohomology/include/gudhi/Persistent_cohomology/"
 
 TD_U = {"Element": "unsigned int", "Characteristic": "unsigned int", "Unsigned_integer_type": "unsigned int"}
+IS_SIGNED = r"std::is_signed_v<\w+>"
+
+
+def H(decls, call, post="", prime=None):
+    """harness: nondet inputs named in_*, the call, optional extra assertions, reach marker"""
+    if prime is None:
+        import re as _re
+        m = _re.search(r"(\w+) = nondet_uint\(\)", decls)
+        prime = m.group(1) if m else ("in_p" if "in_p" in decls else None)
+    if prime:
+        decls += f"\n#ifdef VP_REPLAYABLE\n  __CPROVER_assume(VP_LISTED_PRIME({prime}));\n#endif"
+    return ("int main(void) {\n" + decls + "\n  " + call + "\n" + post +
+            "\n  __CPROVER_assert(0, \"VP_REACH\");\n  return 0;\n}\n")
+
 
 # ------------------------------------------------------------------------------------------------ contract texts
 # P is the C expression naming the characteristic in the extracted text of that header.
@@ -24,8 +43,9 @@ __CPROVER_ensures(__CPROVER_return_value < {P})
 __CPROVER_assigns()
 """
 
-# residue of a signed integer, one clause per region (DESIGN section 2 item 10).  `M` = e % (T)p is the
-# truncating remainder the language gives for signed operands; the mathematical residue is M or M + p.
+
+# residue of a signed integer, one clause per region (DESIGN section 2 item 10).  M = e % (T)p is the truncating
+# remainder the language defines for signed operands; the mathematical residue is M, or M + p when M < 0.
 def c_get_value_s(P, T, TMAX):
     M = f"(e % ({T}){P})"
     return f"""
@@ -38,7 +58,8 @@ __CPROVER_ensures(!(e >= ({T}){P}) || __CPROVER_return_value == (unsigned int){M
 __CPROVER_assigns()
 """
 
-def c_add(P, a="e1", b="e2"):
+
+def c_add(P, a, b):
     return f"""
 __CPROVER_requires({P} >= 2 && {a} < {P} && {b} < {P})
 __CPROVER_ensures(__CPROVER_return_value == ADDMOD({a}, {b}, {P}))
@@ -46,7 +67,8 @@ __CPROVER_ensures(__CPROVER_return_value < {P})
 __CPROVER_assigns()
 """
 
-def c_sub(P, a="e1", b="e2"):
+
+def c_sub(P, a, b):
     return f"""
 __CPROVER_requires({P} >= 2 && {a} < {P} && {b} < {P})
 __CPROVER_ensures(__CPROVER_return_value == SUBMOD({a}, {b}, {P}))
@@ -54,69 +76,415 @@ __CPROVER_ensures(__CPROVER_return_value < {P})
 __CPROVER_assigns()
 """
 
-# _multiply: scalar loop contract (range + termination) for every 32-bit characteristic
-def c_mul_range(P, a="e1", b="e2"):
+
+def c_mul_range(P, a, b):
     return f"""
 __CPROVER_requires({P} >= 2 && {a} < {P} && {b} < {P})
 __CPROVER_ensures(__CPROVER_return_value < {P})
 __CPROVER_assigns()
 """
 
-def l_mul(P, acc="e1", b="e2"):
+
+# bounded: the exact product reduced, all p <= 31 (non-linear arithmetic: DESIGN section 2 item 4)
+def c_mul_exact_b(P, a, b):
     return f"""
-__CPROVER_assigns(a, {acc}, {b}, temp_b)
-__CPROVER_loop_invariant({acc} < {P} && {b} < {P})
-__CPROVER_decreases(a)
+__CPROVER_requires({P} >= 2 && {P} <= 31 && {a} < {P} && {b} < {P})
+__CPROVER_ensures(__CPROVER_return_value == (unsigned int)(((uint64_t){a} * (uint64_t){b}) % (uint64_t){P}))
+__CPROVER_assigns()
 """
 
 
-# ------------------------------------------------------------------------------------------------ Zp_field_operators.h
-OPS = F + "Zp_field_operators.h"
-OPS_G = "unsigned int characteristic_;\n"
-
-def H(decls, call):
-    """harness: nondet inputs named in_*, call, reach marker"""
-    return "int main(void) {\n" + decls + "\n  " + call + "\n  __CPROVER_assert(0, \"VP_REACH\");\n  return 0;\n}\n"
-
-def fn_ops_get_value_u():
-    return Fn(OPS, r"Element get_value\(Element e\) const", "get_value_u", c_get_value_u("characteristic_"),
-              canary=(r"e < characteristic_ \? e : e % characteristic_", "e <= characteristic_ ? e : e % characteristic_"))
-
-def fn_ops_get_value_s(T, TMAX):
-    return Fn(OPS, r"template <typename Signed_integer_type, class = isSignedInteger<Signed_integer_type> >\s*Element get_value\(Signed_integer_type e\) const",
-              "get_value_s", c_get_value_s("characteristic_", T, TMAX),
-              canary=(r"e = e % \(\(Signed_integer_type\)\(characteristic_\)\)", "e = e % characteristic_"))
-
-def fn_ops_add_():
-    return Fn(OPS, r"static Element _add\(Element e1, Element e2, Characteristic characteristic\)", "_add",
-              c_add("characteristic"), canary=(r"e1 >= characteristic", "e1 > characteristic"))
-
-def fn_ops_sub_():
-    return Fn(OPS, r"static Element _subtract\(Element e1, Element e2, Characteristic characteristic\)", "_subtract",
-              c_sub("characteristic"), canary=(r"e1 < e2", "e1 <= e2"))
-
-def fn_ops_mul_(contract=None, loops=True):
-    return Fn(OPS, r"static Element _multiply\(Element e1, Element e2, Characteristic characteristic\)", "_multiply",
-              contract or c_mul_range("characteristic"), loops=({0: l_mul("characteristic")} if loops else None),
-              canary=(r"e2 >= characteristic - e1", "e2 > characteristic - e1"))
+# replacement-only contract of _multiply with a ghost record of the call (used by the public wrappers)
+def c_mul_ghost(P, a, b):
+    return f"""
+__CPROVER_requires({P} >= 2 && {a} < {P} && {b} < {P})
+__CPROVER_ensures(__CPROVER_return_value < {P})
+__CPROVER_ensures(g_mul_a == {a} && g_mul_b == {b} && g_mul_r == __CPROVER_return_value && g_mul_n == __CPROVER_old(g_mul_n) + 1)
+__CPROVER_assigns(g_mul_a, g_mul_b, g_mul_r, g_mul_n)
+"""
 
 
+GHOST_MUL = "unsigned int g_mul_a, g_mul_b, g_mul_r, g_mul_n;\n"
+
+
+def l_mul(P, cnt, acc, b):
+    return f"""
+__CPROVER_assigns({cnt}, {acc}, {b}, temp_b)
+__CPROVER_loop_invariant({acc} < {P} && {b} < {P})
+__CPROVER_decreases({cnt})
+"""
+
+
+# one iteration of the Russian-peasant loop as a function: the exact step (linear; lemma L1 iterates it)
+def c_mul_step(P, cnt, acc, b):
+    return f"""
+__CPROVER_requires({P} >= 2 && *{acc} < {P} && *{b} < {P})
+__CPROVER_ensures(*{cnt} == (__CPROVER_old(*{cnt}) >> 1))
+__CPROVER_ensures(*{b} == ADDMOD(__CPROVER_old(*{b}), __CPROVER_old(*{b}), {P}))
+__CPROVER_ensures(*{acc} == ((__CPROVER_old(*{cnt}) & 1) ? ADDMOD(__CPROVER_old(*{acc}), __CPROVER_old(*{b}), {P}) : __CPROVER_old(*{acc})))
+__CPROVER_assigns(*{cnt}, *{acc}, *{b}, *temp_b)
+"""
+
+
+# ------------------------------------------------------------------------------------------------ header profiles
+class Prof:
+    """one header's naming of the duplicated Z_p-style leaf functions"""
+
+    def __init__(self, key, path, P, add_sig, sub_sig, mul_sig, a, b, mul_names, gvu_sig=None, gvs_sig=None,
+                 globals_="", scopes=(), mul_subs=(), within=None, Pleaf=None):
+        self.key, self.path, self.P = key, path, P
+        self.Pleaf = Pleaf or P          # name of the characteristic inside _add/_subtract/_multiply
+        self.add_sig, self.sub_sig, self.mul_sig = add_sig, sub_sig, mul_sig
+        self.a, self.b = a, b            # parameter names of _add/_subtract
+        self.mul_names = mul_names       # (param a, param b, loop counter, accumulator, doubled operand)
+        self.gvu_sig, self.gvs_sig = gvu_sig, gvs_sig
+        self.globals_, self.scopes, self.mul_subs, self.within = globals_, list(scopes), list(mul_subs), within
+
+
+MFSO = "Multi_field_operators_with_small_characteristics"
+SWAP_SUB = (r"std::swap\((\w+), (\w+)\);", r"VP_SWAP_U(\1, \2);")
+
+PROFS = [
+    Prof("zp_ops", F + "Zp_field_operators.h", "characteristic_",
+         r"static Element _add\(Element e1, Element e2, Characteristic characteristic\)",
+         r"static Element _subtract\(Element e1, Element e2, Characteristic characteristic\)",
+         r"static Element _multiply\(Element e1, Element e2, Characteristic characteristic\)",
+         "e1", "e2", ("e1", "e2", "a", "e1", "e2"),
+         gvu_sig=r"Element get_value\(Element e\) const",
+         gvs_sig=r"template <typename Signed_integer_type, class = isSignedInteger<Signed_integer_type> >\s*Element get_value\(Signed_integer_type e\) const",
+         globals_="unsigned int characteristic_;\n", Pleaf="characteristic"),
+    Prof("zp_el", F + "Zp_field.h", "characteristic",
+         r"static Element _add\(Element element, Element v\)",
+         r"static Element _subtract\(Element element, Element v\)",
+         r"static Element _multiply\(Element element, Element v\)",
+         "element", "v", ("element", "v", "a", "element", "v"),
+         gvs_sig=r"static constexpr Element _get_value\(Integer_type e\)",
+         globals_="unsigned int characteristic;\n"),
+    Prof("zp_sh", F + "Zp_field_shared.h", "characteristic_",
+         r"static Element _add\(Element element, Element v\)",
+         r"static Element _subtract\(Element element, Element v\)",
+         r"static Element _multiply\(Element element, Element v\)",
+         "element", "v", ("element", "v", "a", "element", "v"),
+         gvs_sig=r"static constexpr Element _get_value\(Integer_type e\)",
+         globals_="unsigned int characteristic_;\n"),
+    Prof("mfs_ops", F + "Multi_field_small_operators.h", "productOfAllCharacteristics_",
+         MFSO + r"::_add\(Element element, Element v,\s*Characteristic characteristic\)",
+         MFSO + r"::_subtract\(Element element, Element v,\s*Characteristic characteristic\)",
+         MFSO + r"::_multiply\(Element a, Element b,\s*Characteristic characteristic\)",
+         "element", "v", ("a", "b", "a", "res", "b"),
+         gvu_sig=r"Element get_value\(Element e\) const",
+         globals_="unsigned int productOfAllCharacteristics_;\n", scopes=[MFSO], mul_subs=[SWAP_SUB],
+         Pleaf="characteristic"),
+    Prof("mfs_el", F + "Multi_field_small.h", "productOfAllCharacteristics_",
+         r"static constexpr Element _add\(Element element, Element v\)",
+         r"static constexpr Element _subtract\(Element element, Element v\)",
+         r"static constexpr Element _multiply\(Element a, Element b\)",
+         "element", "v", ("a", "b", "a", "res", "b"),
+         gvs_sig=r"static constexpr Element _get_value\(Integer_type e\)",
+         globals_="unsigned int productOfAllCharacteristics_;\n", mul_subs=[SWAP_SUB]),
+    Prof("mfs_sh", F + "Multi_field_small_shared.h", "productOfAllCharacteristics_",
+         r"static Element _add\(Element element, Element v\)",
+         r"static Element _subtract\(Element element, Element v\)",
+         r"static Element _multiply\(Element a, Element b\)",
+         "element", "v", ("a", "b", "a", "res", "b"),
+         gvs_sig=r"static constexpr Element _get_value\(Integer_type e\)",
+         globals_="unsigned int productOfAllCharacteristics_;\n", mul_subs=[SWAP_SUB]),
+]
+PROF = {p.key: p for p in PROFS}
+
+
+def leaf_sig_fix(pr):
+    """out-of-class definitions: `inline Class::Element Class::_add(...)` - the scope rule strips `Class::`"""
+    return dict(scopes=pr.scopes)
+
+
+def fn_add(pr, contract=None):
+    return Fn(pr.path, pr.add_sig, "_add", contract or c_add(pr.Pleaf, pr.a, pr.b),
+              canary=(rf"{pr.a} >= {pr.Pleaf}\)", f"{pr.a} > {pr.Pleaf})"), **leaf_sig_fix(pr),
+              sig_subs=([(r"^.*?_add\(", "Element _add(")] if pr.scopes else []))
+
+
+def fn_sub(pr, contract=None):
+    return Fn(pr.path, pr.sub_sig, "_subtract", contract or c_sub(pr.Pleaf, pr.a, pr.b),
+              canary=(rf"{pr.a} < {pr.b}\)", f"{pr.a} <= {pr.b})"), **leaf_sig_fix(pr),
+              sig_subs=([(r"^.*?_subtract\(", "Element _subtract(")] if pr.scopes else []))
+
+
+def fn_mul(pr, contract=None, loops=True, canary=True):
+    pa, pb, cnt, acc, dbl = pr.mul_names
+    return Fn(pr.path, pr.mul_sig, "_multiply", contract or c_mul_range(pr.Pleaf, pa, pb),
+              loops=({0: l_mul(pr.Pleaf, cnt, acc, dbl)} if loops else None), subs=pr.mul_subs,
+              canary=((rf"{dbl} >= {pr.Pleaf} - {acc}\)", f"{dbl} > {pr.Pleaf} - {acc})") if canary else None),
+              **leaf_sig_fix(pr),
+              sig_subs=([(r"^.*?_multiply\(", "Element _multiply(")] if pr.scopes else []))
+
+
+def fn_mul_step(pr):
+    pa, pb, cnt, acc, dbl = pr.mul_names
+    extra = ", unsigned int characteristic" if pr.Pleaf == "characteristic" and pr.key in ("zp_ops", "mfs_ops") else ""
+    sig = f"void _multiply_step(unsigned int* {cnt}, unsigned int* {acc}, unsigned int* {dbl}, unsigned int* temp_b{extra})"
+    return Fn(pr.path, pr.mul_sig, "_multiply_step", c_mul_step(pr.Pleaf, cnt, acc, dbl),
+              piece=("loop", 0, sig, [cnt, acc, dbl, "temp_b"]),
+              canary=(rf"\(\*{dbl}\) >= {pr.Pleaf} - \(\*{dbl}\)", f"(*{dbl}) > {pr.Pleaf} - (*{dbl})"), **leaf_sig_fix(pr))
+
+
+def fn_gvu(pr, name="get_value_u"):
+    return Fn(pr.path, pr.gvu_sig, name, c_get_value_u(pr.P),
+              canary=(rf"e < {pr.P} \? e", f"e <= {pr.P} ? e"))
+
+
+def fn_gvs(pr, T, signed=True, name=None):
+    """signed: T in (int, long); unsigned: the `else` branch of the if constexpr (element classes)"""
+    TMAX = {"int": "2147483647u", "long": "4294967295u"}.get(T)
+    tvar = "Signed_integer_type" if pr.key == "zp_ops" else "Integer_type"
+    if signed:
+        return Fn(pr.path, pr.gvs_sig, name or "get_value_s", c_get_value_s(pr.P, T, TMAX),
+                  constexpr=[(IS_SIGNED, True)],
+                  canary=((rf"e = e % \(\({tvar}\)\({pr.P}\)\)", f"e = e % {pr.P}") if T == "int" else
+                          (r"if \(e < 0\) return", "if (e <= 0) return")))
+    return Fn(pr.path, pr.gvs_sig, name or "get_value_u", c_get_value_u(pr.P), constexpr=[(IS_SIGNED, False)],
+              canary=(rf"e < {pr.P} \? e", f"e <= {pr.P} ? e"))
+
+
+RUNS_GVS = [Run(only=["*.postcondition.1", "*.postcondition.2", "*.postcondition.3"], backend="sat", timeout=60, label="range+linear"),
+            Run(only=["*.postcondition.4"], backend="z3", timeout=90, label="e<-p"),
+            Run(only=["*.postcondition.5"], backend="z3", timeout=25, route="R", label="e>=p"),
+            Run(exclude=["*.postcondition.*"], backend="sat", timeout=60, label="safety+frame")]
+RUNS_GVU = [Run(only=["*.postcondition.1"], backend="z3", timeout=60, label="eq"),
+            Run(exclude=["*.postcondition.1"], backend="sat", timeout=60, label="rest")]
+
+
+# ------------------------------------------------------------------------------------------------ replay
+REPLAY_SRC = os.path.join(VERIF, "replay", "fields.cpp")
+REPLAY_BIN = os.path.join(VERIF, "build", "replay_fields")
+
+
+def replay_bin():
+    if not os.path.exists(REPLAY_BIN) or os.path.getmtime(REPLAY_BIN) < os.path.getmtime(REPLAY_SRC):
+        os.makedirs(os.path.dirname(REPLAY_BIN), exist_ok=True)
+        inc = ["-I/repo/src/Persistence_matrix/include", "-I/repo/src/Persistent_cohomology/include",
+               "-I/repo/src/common/include"]
+        rc, o, e, s = sh(["g++", "-std=c++17", "-O1", "-w"] + inc + [REPLAY_SRC, "-o", REPLAY_BIN], 300)
+        if rc != 0:
+            raise RuntimeError("replay build failed: " + (o + e)[-1500:])
+    return REPLAY_BIN
+
+
+def mk_replay(cls, op, argnames):
+    """replay callback: run the real class on CBMC's operands (native C++ compiled from /repo)."""
+    def rp(unit, failure):
+        vals = failure["inputs"]
+        args = []
+        for n in argnames:
+            v = vals.get(n)
+            if v is None:
+                return {"reproduced": None, "detail": f"input {n} not in the trace"}
+            args.append(str(v).rstrip('uUlL'))
+        cmd = [replay_bin(), cls, op] + args
+        rc, o, e, s = sh(cmd, 60)
+        return {"reproduced": True if rc == 1 else (False if rc == 0 else None), "cmd": " ".join(cmd),
+                "detail": (o + e).strip()[-600:], "rc": rc}
+    return rp
+
+
+def _num(v):
+    return int(str(v).rstrip("uUlL"))
+
+
+def failure_class(unit, f):
+    """input class of a refutation, used to match known findings (known_findings.jsonl)"""
+    i = f.get("inputs", {})
+    try:
+        if "multiply_and_add" in unit.uid or "add_and_multiply" in unit.uid:
+            e, m, a = _num(i["in_e"]), _num(i["in_m"]), _num(i["in_a"])
+            v = (e + a) * m if "add_and_multiply" in unit.uid else e * m + a
+            if v >= 2 ** 32 and f["name"].endswith("postcondition.2"):
+                return "fused-op-expression-exceeds-32-bits"
+    except (KeyError, ValueError):
+        pass
+    return None
+
+
+# ------------------------------------------------------------------------------------------------ units
 def units(tier):
     U = []
-    U.append(Unit("zp_ops.get_value_u", "C10", [fn_ops_get_value_u()], enforce="get_value_u", typedefs=TD_U,
-                  globals_=OPS_G, inputs=["in_e", "characteristic_"],
-                  harness=H("  unsigned int in_e; characteristic_ = nondet_uint();", "get_value_u(in_e);"),
-                  runs=[Run(only=["get_value_u.postcondition.1"], backend="z3", timeout=60, label="eq"),
-                        Run(exclude=["get_value_u.postcondition.1"], backend="sat", timeout=60, label="rest")],
-                  desc="Zp_field_operators::get_value(Element): residue of an unsigned integer"))
-    U.append(Unit("zp_ops._add", "C10", [fn_ops_add_()], enforce="_add", typedefs=TD_U, globals_=OPS_G,
-                  inputs=["in_e1", "in_e2", "in_p"],
-                  harness=H("  unsigned int in_e1, in_e2, in_p;", "_add(in_e1, in_e2, in_p);"),
-                  desc="Zp_field_operators::_add: exact sum reduced, reduced operands, every 32-bit characteristic"))
-    U.append(Unit("zp_ops._subtract", "C10", [fn_ops_sub_()], enforce="_subtract", typedefs=TD_U, globals_=OPS_G,
-                  inputs=["in_e1", "in_e2", "in_p"],
-                  harness=H("  unsigned int in_e1, in_e2, in_p;", "_subtract(in_e1, in_e2, in_p);")))
-    U.append(Unit("zp_ops._multiply.range", "C10", [fn_ops_mul_()], enforce="_multiply", typedefs=TD_U, globals_=OPS_G,
-                  loop_contracts=True, inputs=["in_e1", "in_e2", "in_p"],
-                  harness=H("  unsigned int in_e1, in_e2, in_p;", "_multiply(in_e1, in_e2, in_p);")))
+    thorough = tier == "thorough"
+
+    # ---- leaves of the six Z_p-style headers ---------------------------------------------------------------
+    for pr in PROFS:
+        k = pr.key
+        leaf3 = pr.Pleaf == "characteristic" and k in ("zp_ops", "mfs_ops")   # characteristic passed as 3rd argument
+        pdecl = "" if leaf3 else f" {pr.P} = nondet_uint();"
+        parg = ", in_p" if leaf3 else ""
+        pin = ["in_p"] if leaf3 else [pr.P]
+        pvar = ", in_p" if leaf3 else ""
+        cls = k
+        U.append(Unit(f"{k}._add", "C10", [fn_add(pr)], enforce="_add", typedefs=TD_U, globals_=pr.globals_,
+                      inputs=["in_e1", "in_e2"] + pin, replay=mk_replay(cls, "_add", ["in_e1", "in_e2"] + pin),
+                      harness=H(f"  unsigned int in_e1, in_e2{pvar};{pdecl}", f"_add(in_e1, in_e2{parg});"),
+                      desc=f"{pr.path.split('/')[-1]} _add: exact sum reduced, every 32-bit characteristic"))
+        U.append(Unit(f"{k}._subtract", "C10", [fn_sub(pr)], enforce="_subtract", typedefs=TD_U, globals_=pr.globals_,
+                      inputs=["in_e1", "in_e2"] + pin, replay=mk_replay(cls, "_subtract", ["in_e1", "in_e2"] + pin),
+                      harness=H(f"  unsigned int in_e1, in_e2{pvar};{pdecl}", f"_subtract(in_e1, in_e2{parg});"),
+                      desc=f"{pr.path.split('/')[-1]} _subtract: exact difference reduced"))
+        U.append(Unit(f"{k}._multiply.range", "C10", [fn_mul(pr)], enforce="_multiply", typedefs=TD_U,
+                      globals_=pr.globals_, loop_contracts=True, inputs=["in_e1", "in_e2"] + pin,
+                      replay=mk_replay(cls, "_multiply", ["in_e1", "in_e2"] + pin),
+                      harness=H(f"  unsigned int in_e1, in_e2{pvar};{pdecl}", f"_multiply(in_e1, in_e2{parg});"),
+                      desc="_multiply: loop contract (result and operands stay reduced; terminates) for every 32-bit characteristic"))
+        U.append(Unit(f"{k}._multiply.step", "C10", [fn_mul_step(pr)], enforce="_multiply_step", typedefs=TD_U,
+                      globals_=pr.globals_, inputs=["in_a", "in_acc", "in_b"] + pin,
+                      harness=H(f"  unsigned int in_a, in_acc, in_b, in_t{pvar};{pdecl}",
+                                f"_multiply_step(&in_a, &in_acc, &in_b, &in_t{parg});"),
+                      runs=[Run(timeout=240)],
+                      desc="_multiply loop body as a function: exact Russian-peasant step (acc += b if odd; b doubled; a halved), all mod p"))
+        U.append(Unit(f"{k}._multiply.exact_p31", "C10",
+                      [fn_mul(pr, contract=c_mul_exact_b(pr.Pleaf, pr.mul_names[0], pr.mul_names[1]), loops=False)],
+                      enforce="_multiply", typedefs=TD_U, globals_=pr.globals_, unwind=7, route="B",
+                      bound="characteristic <= 31 (operands < p, so the loop runs <= 5 times; unwinding assertion on)",
+                      inputs=["in_e1", "in_e2"] + pin, replay=mk_replay(cls, "_multiply", ["in_e1", "in_e2"] + pin),
+                      harness=H(f"  unsigned int in_e1, in_e2{pvar};{pdecl}", f"_multiply(in_e1, in_e2{parg});"),
+                      desc="_multiply == e1*e2 mod p (64-bit product), every p <= 31"))
+        if pr.gvu_sig:
+            U.append(Unit(f"{k}.get_value_u", "C10", [fn_gvu(pr)], enforce="get_value_u", typedefs=TD_U,
+                          globals_=pr.globals_, inputs=["in_e", pr.P], runs=RUNS_GVU,
+                          replay=mk_replay(cls, "get_value_u", ["in_e", pr.P]),
+                          harness=H(f"  unsigned int in_e; {pr.P} = nondet_uint();", "get_value_u(in_e);"),
+                          desc="residue of an unsigned integer"))
+        if pr.gvs_sig:
+            for T in ("int", "long"):
+                td = dict(TD_U)
+                td["Signed_integer_type" if k == "zp_ops" else "Integer_type"] = T
+                U.append(Unit(f"{k}.get_value_{T}", "C10", [fn_gvs(pr, T)], enforce="get_value_s", typedefs=td,
+                              globals_=pr.globals_, inputs=["in_e", pr.P], runs=RUNS_GVS,
+                              replay=mk_replay(cls, f"get_value_{T}", ["in_e", pr.P]),
+                              harness=H(f"  {T} in_e; {pr.P} = nondet_uint();", "get_value_s(in_e);"),
+                              desc=f"residue of a signed integer ({T}), negative ones included, one clause per region"))
+            if k != "zp_ops":
+                td = dict(TD_U)
+                td["Integer_type"] = "unsigned int"
+                U.append(Unit(f"{k}.get_value_u", "C10", [fn_gvs(pr, "unsigned int", signed=False)],
+                              enforce="get_value_u", typedefs=td, globals_=pr.globals_, inputs=["in_e", pr.P],
+                              runs=RUNS_GVU, replay=mk_replay(cls, "get_value_u", ["in_e", pr.P]),
+                              harness=H(f"  unsigned int in_e; {pr.P} = nondet_uint();", "get_value_u(in_e);"),
+                              desc="residue of an unsigned integer (unsigned branch of _get_value)"))
+    # ---- public operations of the two run-time operator classes --------------------------------------------
+    for k in ("zp_ops", "mfs_ops"):
+        ops_units(PROF[k], U, thorough)
     return U
+
+
+def R_(x, P):
+    return f"RES_U({x}, {P})"
+
+
+def ops_units(pr, U, thorough):
+    """add/subtract/multiply/fused/are_equal wrappers: callees replaced by their (separately enforced) contracts."""
+    k, P, path = pr.key, pr.P, pr.path
+    CALLS = {"get_value": "get_value_u"}
+    # by-reference operands: the harness passes the address of a local (no __CPROVER_is_fresh: in enforce mode it
+    # would re-point the parameter to a fresh object and the counterexample could not be read back from the inputs)
+    fresh = lambda v: ""
+    base = f"__CPROVER_requires({P} >= 2)\n"
+    old = lambda v: f"__CPROVER_old(*{v})"
+    gv = fn_gvu(pr)
+    G = pr.globals_ + GHOST_MUL
+    mulg = fn_mul(pr, contract=c_mul_ghost(pr.Pleaf, pr.mul_names[0], pr.mul_names[1]), loops=False, canary=False)
+
+    def unit(name, sig, contract, callee_fns, replace, decls, call, inputs, canary, runs=None, replay_op=None, desc=""):
+        fn = Fn(path, sig, name, contract, calls=CALLS, canary=canary)
+        U.append(Unit(f"{k}.{name}", "C10", callee_fns + [fn], enforce=name, replace=replace, typedefs=TD_U,
+                      globals_=G, inputs=inputs + [P], runs=runs,
+                      replay=mk_replay(k + ("3" if len(inputs) == 3 else ""), replay_op or name, inputs + [P]),
+                      harness=H(f"  {decls} {P} = nondet_uint(); g_mul_n = 0;", call), desc=desc))
+
+    # every obligation of the wrappers on z3: the assumed callee contracts contain `%`; MiniSat handles each
+    # obligation alone in < 1 s but not the joint multi-property run (measured: > 120 s), z3 shares the terms (17 s)
+    RUNS_EQ = [Run(backend="z3", timeout=240, label="all-z3")]
+    # -- add / subtract
+    for op, leaf, SPEC, mut in (("add", "_add", "ADDMOD", (r"get_value_u\(e2\)", "e2")),
+                                ("subtract", "_subtract", "SUBMOD", (r"get_value_u\(e2\)", "e2"))):
+        leaf_fn = fn_add(pr) if leaf == "_add" else fn_sub(pr)
+        variants = [(op, f"Element {op}\\(Element e1, Element e2\\) const", None)]
+        if op == "add":
+            variants.append(("add_inplace", r"void add_inplace\(Element& e1, Element e2\) const", "e1"))
+        else:
+            variants.append(("subtract_inplace_front", r"void subtract_inplace_front\(Element& e1, Element e2\) const", "e1"))
+            variants.append(("subtract_inplace_back", r"void subtract_inplace_back\(Element e1, Element& e2\) const", "e2"))
+        for name, sig, ref in variants:
+            mut = (r"get_value_u\(e1\)", "e1") if ref == "e2" else mut
+            x1 = old("e1") if ref == "e1" else "e1"
+            x2 = old("e2") if ref == "e2" else "e2"
+            res = f"*{ref}" if ref else "__CPROVER_return_value"
+            c = base + (fresh(ref) if ref else "") + \
+                f"__CPROVER_ensures({res} == {SPEC}({R_(x1, P)}, {R_(x2, P)}, {P}))\n" + \
+                f"__CPROVER_ensures({res} < {P})\n" + \
+                (f"__CPROVER_assigns(*{ref})\n" if ref else "__CPROVER_assigns()\n")
+            a1 = "&x_e1" if ref == "e1" else "in_e1"
+            a2 = "&x_e2" if ref == "e2" else "in_e2"
+            unit(name, sig, c, [gv, leaf_fn], ["get_value_u", leaf], "unsigned int in_e1, in_e2; unsigned int x_e1 = in_e1, x_e2 = in_e2;",
+                 f"{name}({a1}, {a2});", ["in_e1", "in_e2"], mut, runs=RUNS_EQ, replay_op=op,
+                 desc=f"{name}: exact {op} of the residues, reduced; only the designated operand is written")
+    # -- multiply: the residues are forwarded to _multiply and its result is returned (ghost call record)
+    for name, sig, ref in (("multiply", r"Element multiply\(Element e1, Element e2\) const", None),
+                           ("multiply_inplace", r"void multiply_inplace\(Element& e1, Element e2\) const", "e1")):
+        x1 = old("e1") if ref else "e1"
+        res = f"*{ref}" if ref else "__CPROVER_return_value"
+        c = base + (fresh(ref) if ref else "") + \
+            f"__CPROVER_ensures(g_mul_n == 1 && g_mul_a == {R_(x1, P)} && g_mul_b == {R_('e2', P)} && {res} == g_mul_r)\n" + \
+            f"__CPROVER_ensures({res} < {P})\n" + \
+            (f"__CPROVER_assigns(*{ref}, g_mul_a, g_mul_b, g_mul_r, g_mul_n)\n" if ref else "__CPROVER_assigns(g_mul_a, g_mul_b, g_mul_r, g_mul_n)\n")
+        a1 = "&x_e1" if ref else "in_e1"
+        unit(name, sig, c, [gv, mulg], ["get_value_u", "_multiply"], "unsigned int in_e1, in_e2; unsigned int x_e1 = in_e1;",
+             f"{name}({a1}, in_e2);", ["in_e1", "in_e2"], (r"get_value_u\(e2\)", "e2"), runs=RUNS_EQ, replay_op="multiply",
+             desc=f"{name}: _multiply is called exactly once, on the two residues, and its result is what is returned/stored")
+    # -- fused operations on reduced operands.  clause 1: which expression is reduced (shared with the code);
+    #    clause 2: that expression does not wrap in 32 bits, so clause 1 is the exact result (refuted where it wraps: F6)
+    PMAX = "65536u" if k == "zp_ops" else "4294967295u"
+    for fam, expr32, expr64, sigs in (
+        ("multiply_and_add", "({e} * {m} + {a})", "((uint64_t){e} * (uint64_t){m} + (uint64_t){a})",
+         [("multiply_and_add", r"Element multiply_and_add\(Element e, Element m, Element a\) const", None, "e, m, a"),
+          ("multiply_and_add_inplace_front", r"void multiply_and_add_inplace_front\(Element& e, Element m, Element a\) const", "e", "e, m, a"),
+          ("multiply_and_add_inplace_back", r"void multiply_and_add_inplace_back\(Element e, Element m, Element& a\) const", "a", "e, m, a")]),
+        ("add_and_multiply", "(({e} + {a}) * {m})", "(((uint64_t){e} + (uint64_t){a}) * (uint64_t){m})",
+         [("add_and_multiply", r"Element add_and_multiply\(Element e, Element a, Element m\) const", None, "e, a, m"),
+          ("add_and_multiply_inplace_front", r"void add_and_multiply_inplace_front\(Element& e, Element a, Element m\) const", "e", "e, a, m"),
+          ("add_and_multiply_inplace_back", r"void add_and_multiply_inplace_back\(Element e, Element a, Element& m\) const", "m", "e, a, m")])):
+        for name, sig, ref, order in sigs:
+            nm = {v: (old(v) if v == ref else v) for v in ("e", "m", "a")}
+            red = " && ".join(f"{('*' + v) if v == ref else v} < {P}" for v in ("e", "m", "a"))
+            res = f"*{ref}" if ref else "__CPROVER_return_value"
+            c = f"__CPROVER_requires({P} >= 2 && {P} < {PMAX})\n" + (fresh(ref) if ref else "") + \
+                f"__CPROVER_requires({red})\n" + \
+                f"__CPROVER_ensures({res} == RES_U({expr32.format(**nm)}, {P}))\n" + \
+                f"__CPROVER_ensures({expr64.format(**nm)} <= 4294967295ull)\n" + \
+                f"__CPROVER_ensures({res} < {P})\n" + \
+                (f"__CPROVER_assigns(*{ref})\n" if ref else "__CPROVER_assigns()\n")
+            args = ", ".join(("&x_" + v) if v == ref else ("in_" + v) for v in order.split(", "))
+            unit(name, sig, c, [gv], ["get_value_u"], "unsigned int in_e, in_m, in_a; unsigned int x_e = in_e, x_m = in_m, x_a = in_a;", f"{name}({args});",
+                 ["in_e", "in_m", "in_a"], (r"\+", "-"),
+                 runs=[Run(only=["*.postcondition.1"], backend="z3", timeout=120, label="value"),
+                       Run(only=["*.postcondition.2"], backend="sat", timeout=120, label="no-wrap"),
+                       Run(exclude=["*.postcondition.1", "*.postcondition.2"], backend="sat", timeout=120, label="rest")],
+                 replay_op=fam, desc=f"{name}: reduces exactly the documented expression; that expression must not wrap in 32 bits")
+    # -- comparison by residue
+    c = base + f"__CPROVER_ensures(__CPROVER_return_value == ({R_('e1', P)} == {R_('e2', P)}))\n__CPROVER_assigns()\n"
+    unit("are_equal", r"bool are_equal\(Element e1, Element e2\) const", c, [gv], ["get_value_u"],
+         "unsigned int in_e1, in_e2;", "are_equal(in_e1, in_e2);", ["in_e1", "in_e2"], (r"==", "!="), runs=RUNS_EQ,
+         desc="are_equal: comparison by residue")
+
+
+TRUSTED = [
+    "vp/prelude.h: spec functions RES_U/ADDMOD/SUBMOD/MATHMOD64 and the R11 stand-ins (VP_SWAP_U, vp_gcd_u)",
+    "template bindings: Unsigned_integer_type = unsigned int; Integer_type in {int, long, unsigned int}; other instantiations are not verified",
+    "extraction rules R1-R13 of DESIGN.md section 3 (vp/extract.py): the verified text is the text of /repo rewritten by them on every run",
+    "CBMC 6.11.0 (goto-cc, goto-instrument --dfcc, MiniSat), z3 4.8.12",
+    "GMP-based classes (Multi_field.h, Multi_field_shared.h, Multi_field_operators.h, Persistent_cohomology/Multi_field.h) are NOT under contract: mpz_class is an external library",
+]
+ASSUMPTIONS = [
+    "unsigned wrap-around is defined behaviour (no --unsigned-overflow-check): the field code relies on it",
+    "x86-64 LP64 data model (int 32, long 64), two's complement",
+    "L1: iterating the verified exact step of _multiply from (a,0,b) until a == 0 yields a*b mod p (checked by CBMC end-to-end only for p <= 31)",
+    "L2: Z_p is a field for prime p; the smallest non-unit of a composite c divides c (termination of the table loops / refusal of composites; checked end-to-end for c <= 16)",
+    "const-reference parameters are extracted as by-value copies (no aliasing between reference parameters)",
+]
